@@ -100,7 +100,8 @@ def step (st : PState) : Option PState :=
     else if cmd == 'V' then (readNumber r).map fun (y, r') => st.update (st.cur.1, y) r'
     else if cmd == 'v' then (readNumber r).map fun (y, r') => st.update (st.cur.1, st.cur.2 + y) r'
     else if cmd == 'Z' || cmd == 'z' then
-      st.startPos.map fun p => st.update p r
+      -- closepath takes no arguments and cannot be repeated implicitly: the command is forgotten
+      st.startPos.map fun p => { (st.update p r) with command := none }
     else if cmd == 'C' then (skipCoords 2 r).bind abs1
     else if cmd == 'c' then (skipCoords 2 r).bind rel1
     else if cmd == 'S' || cmd == 'Q' then (skipCoords 1 r).bind abs1
